@@ -956,9 +956,13 @@ var blockRules = map[BlockKind]blockRule{
 	HTMLBlockKind: {
 		match: func(p *lineParser) bool {
 			if htmlBlockConditions[p.ContainerHTMLCondition()].endCondition(p.BytesAfterIndent()) {
-				if !p.IsRestBlank() {
-					p.CollectInline(RawHTMLKind, len(p.BytesAfterIndent()))
+				if p.IsRestBlank() {
+					// End conditions 6 and 7: the blank line is not part of the block.
+					// Leave it to be handled like any other blank line
+					// (it may make the list it is in loose).
+					return false
 				}
+				p.CollectInline(RawHTMLKind, len(p.BytesAfterIndent()))
 				p.ConsumeLine()
 				return false
 			}
